@@ -116,8 +116,8 @@ PROPS = {
         level="exploration",
         rule="rapid cases: publisher kind {root, clone, filtered clone} x handler behaviour {fast, microsecond delay, slower than the producer, blocked on a harness channel then released} x Close moment {before the publisher is ready (first list gated), publisher shut down before ready, mid-stream, after the stream, never} x streams of 0-300 create/update/delete events in bursts between barriers; a recording handler logs every callback (kind, object, overlap counter, whether Done had been observed) and a witness subscription is created back-to-back with the monitor. Oracle: OnInitialize at most once, first, with the publisher's cache at readiness; callbacks == witness events one for one (type and object identity), a prefix when closed mid-stream, an in-order subsequence when the handler was blocked beyond the buffer; never overlapping; none after Done was observed; none at all when the publisher died before ready. Non-trivial = >= 20 callbacks of all three types with a slow/blocked handler or a mid-stream Close; distinct = hash of history.",
         assumptions=["typed monitors are compared with untyped ones in the C20 differential"],
-        quick=[J("TestC16_Monitor", checks=250, shards=8, procs=[2, 4, 8, 16])],
-        thorough=[J("TestC16_Monitor", checks=4000, shards=16, procs=[1, 2, 4, 8, 16], timeout=2400)],
+        quick=[J("TestC16_Monitor", checks=250, shards=8, procs=[2, 4, 8, 16]), J("TestC16_MonitorModel", checks=1500, shards=2, procs=[2, 8])],
+        thorough=[J("TestC16_Monitor", checks=4000, shards=16, procs=[1, 2, 4, 8, 16], timeout=2400), J("TestC16_MonitorModel", checks=60000, shards=8, procs=[1, 2, 4, 16], timeout=2400)],
     ),
     "C12": dict(
         level="fault_enumeration",
